@@ -48,6 +48,9 @@ type Stack struct {
 	PartSize int
 	// Extra carries stack specific handles (e.g. other mux channels).
 	Extra map[string]any
+	// Raw is an extra participant attached directly to the innermost in-memory transport
+	// (an adversary / foreign implementation that speaks the inner protocol by hand).
+	Raw *Node
 	// Underlying closes what the stack's own Close does not own (the transport below a
 	// multiplexer); harnesses call it during tear-down.
 	Underlying []func() error
@@ -113,6 +116,21 @@ func wrapSwarms[A p2p.Addr](swarms []p2p.Swarm[A], addrs []A) []*Node {
 		nodes = append(nodes, n)
 	}
 	return nodes
+}
+
+// rawNode wraps a bare in-memory swarm whose peers are addressed by node index.
+func rawNode(s p2p.Swarm[memswarm.Addr], addrs []memswarm.Addr) *Node {
+	n := &Node{Index: -1}
+	n.Tell = func(ctx context.Context, dst int, v p2p.IOVec) error { return s.Tell(ctx, addrs[dst], v) }
+	n.Receive = func(ctx context.Context, fn func(Msg)) error {
+		return s.Receive(ctx, func(m p2p.Message[memswarm.Addr]) {
+			fn(Msg{Src: -1, Dst: -1, SrcText: text(m.Src), DstText: text(m.Dst), Payload: m.Payload})
+		})
+	}
+	n.MTU = s.MTU
+	n.Close = s.Close
+	n.Local = func() []string { return []string{text(s.LocalAddrs()[0])} }
+	return n
 }
 
 // Config selects and parametrises a stack.
@@ -186,6 +204,7 @@ func Build(c Config) *Stack {
 		}
 		st.Nodes = wrapSwarms(sw, addrs)
 		st.PartSize = innerMTU(c) - fragswarm.Overhead
+		st.Raw = rawNode(r.NewSwarm(), addrs)
 	case "mbapp":
 		r := memswarm.NewSecureRealm[string](memOpts(c)...)
 		sw := make([]p2p.Swarm[memswarm.Addr], n)
@@ -200,6 +219,7 @@ func Build(c Config) *Stack {
 		}
 		st.Nodes, st.HasAsk = wrapSwarms(sw, addrs), true
 		st.PartSize = innerMTU(c) - mbapp.HeaderSize
+		st.Raw = rawNode(r.NewSwarm("rawkey"), addrs)
 	case "mux-string", "mux-varint", "mux-uint16", "mux-uint32", "mux-uint64":
 		r := memswarm.NewRealm(memOpts(c)...)
 		sw := make([]p2p.Swarm[memswarm.Addr], n)
@@ -229,6 +249,11 @@ func Build(c Config) *Stack {
 		}
 		st.Nodes, st.HasAsk = wrapSwarms(sw, addrs), true
 		st.Extra["other"] = wrapSwarms(other, addrs)
+		rawSw := r.NewSwarm()
+		st.Raw = rawNode(rawSw, addrs)
+		st.Raw.Ask = func(ctx context.Context, resp []byte, dst int, v p2p.IOVec) (int, error) {
+			return rawSw.Ask(ctx, resp, addrs[dst], v)
+		}
 	case "multi":
 		ra := memswarm.NewRealm(memOpts(c)...)
 		rb := memswarm.NewRealm(memOpts(c)...)
